@@ -58,8 +58,8 @@ def validator(ctx: Ctx, only_start: bool = False):
     fn = ctx.repo.func(ROUTE, "route_cooresponds_with_entities")
     route, src, dst = fn.params[:3]
     E, D, Q = f"TupleOps.is_empty({route})", dst, f"{src} == {dst}"
-    S_forms = (f"{route}[0].start == {src}.geoid", f"{src}.geoid == {route}[0].start")
-    T_forms = (f"{route}[-1].end == {dst}.geoid", f"{dst}.geoid == {route}[-1].end")
+    S_forms = (f"{route}[0].start == {src}.geoid", f"{src}.geoid == {route}[0].start", f"TupleOps.head({route}).start == {src}.geoid", f"{src}.geoid == TupleOps.head({route}).start")
+    T_forms = (f"{route}[-1].end == {dst}.geoid", f"{dst}.geoid == {route}[-1].end", f"TupleOps.last({route}).end == {dst}.geoid", f"{dst}.geoid == TupleOps.last({route}).end")
     E_forms = (E, f"len({route}) == 0", f"not {route}")
     paths = flow.paths(fn.node)
     import itertools
